@@ -70,3 +70,14 @@ Example add_is_accepted :
   mut_check fone fone (SAnonMap (SBool true) 1 (Some 1) (Some 3)) [] [([], 1%N)]
             (VAnonMap [(0%N, VBool true)]) (VAnonMap [(0%N, VBool false); (1%N, VBool false)]) = Some [([], 2%N)].
 Proof. vm_compute. reflexivity. Qed.
+
+(** ** the model's key counters are unbounded naturals, the code's are usize.  They agree as long
+    as nothing exceeds usize::MAX: for an addition that holds when the counter of the map's path
+    and the keys of the map leave headroom (the known finding K1 is a guess that does not) *)
+From Cambrian Require Import Codec KeyBound.
+Theorem added_key_and_counter_fit_in_usize :
+  forall (A : Type) (c : pctx) (p : path) (m : list (N * A)),
+    (get_nk c p < usize_max)%N -> (forall kv, In kv m -> (fst kv < usize_max - 1)%N) ->
+    (fresh_key c p m < usize_max)%N /\ (fresh_key c p m + 1 <= usize_max)%N.
+Proof. intros A c p m Hc Hk. split; [apply fresh_key_fits | apply counter_after_addition_fits]; assumption. Qed.
+Print Assumptions added_key_and_counter_fit_in_usize.
